@@ -74,13 +74,25 @@ type arRun struct {
 	wedged  map[types.Address]bool
 	nRecv   int
 	histTag string
+	stateNote func() string
 	fast    bool  // compressed calendar
 	jumpSec int64 // added once to the timestamp of the next momentum (time-dependent methods: lock periods, epochs)
 }
 
 func (r *arRun) fail(format string, a ...interface{}) {
 	r.failed = true
-	r.c.Fail("autoreceive run=%d regime=%d h=%d: %s", r.id, r.regime, r.n.Height(), fmt.Sprintf(format, a...))
+	msg := fmt.Sprintf(format, a...)
+	if r.stateNote != nil { // the scenario's description of the contract state the call met
+		note := ""
+		if p := safely(func() { note = r.stateNote() }); p == "" && note != "" {
+			msg += " ; state: " + note
+		}
+	}
+	tag := ""
+	if r.histTag != "" {
+		tag = " scenario=" + r.histTag
+	}
+	r.c.Fail("autoreceive run=%d regime=%d%s h=%d: %s", r.id, r.regime, tag, r.n.Height(), msg)
 }
 
 func arContractName(a types.Address) string {
@@ -424,6 +436,15 @@ func (r *arRun) checkReceive(send *nom.AccountBlock, res *vm.ContractExecution, 
 			verdict = "violation"
 			r.fail("C09: contract storage changed by a failed call (status 2): %s ; diff: %s", r.describeSend(send), arStorageDiff(before, after))
 		}
+		// the periodic Update call has no arguments and no preconditions but "not too recent": any other error comes out of the
+		// reward bookkeeping itself - an internal error, after which no producer can ever advance the contract's epochs
+		if strings.HasSuffix(label, "."+definition.UpdateMethodName) && len(send.Data) == 4 && send.Amount.Sign() == 0 {
+			switch res.ReturnedError {
+			case constants.ErrUpdateTooRecent, constants.ErrInvalidTokenOrAmount, constants.ErrUnpackError, constants.ErrAcceleratorEnded:
+			default:
+				r.fail("C09: the periodic Update call of the %s contract fails with an internal error (not a refusal reason of the method): %v ; %s", arContractName(send.ToAddress), res.ReturnedError, r.describeSend(send))
+			}
+		}
 	default:
 		verdict = "violation"
 		r.fail("C09: contract receive has status %d (data %s): %s", status, hx(b.Data), r.describeSend(send))
@@ -650,6 +671,17 @@ func init() {
 			}
 			autoreceiveHistory(c, 2+i%2, sc)
 		}
+		// the boundary-integer sweep (s_autoreceive_sweep.go): every method x every integer argument and the amount x the
+		// boundary family, under all sporks; in the thorough tier also under the other spork regimes
+		autoreceiveHistory(c, 3, "int-sweep:0/1")
+		// reward epochs with degenerate participants (s_autoreceive_degenerate.go), compressed calendar; regimes 3 and 0..2 in turn
+		autoreceiveHistory(c, 3, "degenerate-epochs")
+		autoreceiveHistory(c, int(c.Seed%3), "degenerate-epochs")
+		if c.Tier == "thorough" {
+			for id := 0; id < 3; id++ {
+				autoreceiveHistory(c, id, "int-sweep:0/1")
+			}
+		}
 	})
 }
 
@@ -685,7 +717,7 @@ func autoreceiveHistory(c *Ctx, id int, scenario string) {
 	constants.InitialBridgeAdministrator = g.User5.Address
 	constants.MinAdministratorDelay, constants.MinSoftDelay, constants.MinUnhaltDurationInMomentums, constants.MinGuardians = 4, 2, 3, 2
 	constants.FuseExpiration = 12 // momentums (the live value is ten hours of momentums)
-	if id%2 == 1 {
+	if id%2 == 1 || scenario == "degenerate-epochs" {
 		constants.UpdateMinNumMomentums = 7 // the contracts' Update methods run (reward bookkeeping) instead of ErrUpdateTooRecent
 	}
 
@@ -697,7 +729,7 @@ func autoreceiveHistory(c *Ctx, id int, scenario string) {
 	// is one hour and every lock period counts hours instead of days, so that lock periods end and reward epochs pass
 	// within the history (a momentum whose timestamp lies 84 real days ahead costs the consensus layer ~40 s of point
 	// generation; 84 hours cost 1.5 s).
-	fast := id%2 == 1 && scenario == ""
+	fast := (id%2 == 1 && scenario == "") || scenario == "degenerate-epochs"
 	origEpoch := consensus.EpochDuration
 	origLocks := []int64{constants.PillarEpochLockTime, constants.PillarEpochRevokeTime, constants.SentinelLockTimeWindow, constants.SentinelRevokeTimeWindow,
 		constants.StakeTimeUnitSec, constants.StakeTimeMinSec, constants.StakeTimeMaxSec}
@@ -717,7 +749,7 @@ func autoreceiveHistory(c *Ctx, id int, scenario string) {
 		n = NewNode()
 	}
 	defer n.Stop()
-	r := &arRun{c: c, n: n, id: id, regime: regime, fast: fast, sends: map[types.Hash]*arSend{}, wedged: map[types.Address]bool{}}
+	r := &arRun{c: c, n: n, id: id, regime: regime, fast: fast, histTag: scenario, sends: map[types.Hash]*arSend{}, wedged: map[types.Address]bool{}}
 	r.w = newArWorld(r)
 	defer func() {
 		for _, id := range r.w.declared {
